@@ -259,7 +259,7 @@ class GroupBy:
                 *group_key_list, sort=False
             )
 
-        self.result_index.names = group_key_names
+        self._result_index.names = group_key_names
 
     @cached_property
     def _group_key_lengths(self):
@@ -368,7 +368,12 @@ class GroupBy:
         ndarray
             Array of group indices for each original row
         """
-        return self._group_ikey
+        ikey = self._group_ikey
+        if isinstance(ikey, np.ndarray) and ikey.flags.writeable:
+            # hand out a read-only view: the codes of the grouping cannot be edited through it
+            ikey = ikey.view()
+            ikey.setflags(write=False)
+        return ikey
 
     @property
     def result_index(self):
@@ -380,7 +385,8 @@ class GroupBy:
         pd.Index
             Index with one level per group key
         """
-        return self._result_index
+        # a shallow copy: renaming what is handed out must not rename the labels of the grouping
+        return self._result_index.copy()
 
     @cached_property
     def _labels_argsort(self):
@@ -418,7 +424,9 @@ class GroupBy:
         Count of observations for each group as numpy array containing the ikey or codes.
         Includes empty groups
         """
-        return self.count_ikey()
+        count = self.count_ikey()
+        count.setflags(write=False)  # cached: must not be editable through what is handed out
+        return count
 
     @property
     def key_count(self):
